@@ -285,6 +285,8 @@ func ProcessPromqlMetricsRangeSearchRequest(ctx *fasthttp.RequestCtx, myid int64
 
 	if res.IsScalar {
 		mQResponse, err = res.GetResultsPromQlForScalarType(pqlQuerytype, startTime, endTime, uint32(step.Seconds()))
+	} else if len(metricQueryRequest) == 0 {
+		err = errors.New("query has no vector selector and no scalar result")
 	} else {
 		mQResponse, err = res.GetResultsPromQl(&metricQueryRequest[0].MetricsQuery, pqlQuerytype)
 	}
@@ -492,6 +494,11 @@ func ProcessGetSeriesByLabelRequest(ctx *fasthttp.RequestCtx, myid int64) {
 			return
 		}
 
+		if len(metricQueryRequest) == 0 {
+			// an expression without a vector selector (e.g. a number) selects no series
+			continue
+		}
+
 		metricQueryRequest[0].MetricsQuery.ExitAfterTagsSearch = true
 		metricQueryRequest[0].MetricsQuery.TagIndicesToKeep = make(map[int]struct{})
 		metricQueryRequest[0].MetricsQuery.SelectAllSeries = true
@@ -591,6 +598,10 @@ func ProcessUiMetricsSearchRequest(ctx *fasthttp.RequestCtx, myid int64) {
 		metricQueriesList = append(metricQueriesList, &metricQueryRequest[i].MetricsQuery)
 		segment.LogMetricsQuery("PromQL metrics query parser", &metricQueryRequest[i], qid)
 		timeRange = &metricQueryRequest[i].TimeRange
+	}
+	if len(metricQueriesList) == 0 {
+		utils.SendError(ctx, "Query has no vector selector", fmt.Sprintf("Query: %s", searchText), errors.New("query has no vector selector"))
+		return
 	}
 	res := segment.ExecuteMultipleMetricsQuery(hashList, metricQueriesList, queryArithmetic, timeRange, qid, false)
 	mQResponse, err := res.GetResultsPromQlForUi(metricQueriesList[0], pqlQuerytype, startTime, endTime)
@@ -699,6 +710,11 @@ func ProcessGetAllMetricTagsRequest(ctx *fasthttp.RequestCtx, myid int64) {
 	metricQueryRequest, _, _, err := ConvertPromQLToMetricsQuery(searchText, timeRange.StartEpochSec, timeRange.EndEpochSec, myid)
 	if err != nil {
 		utils.SendError(ctx, "Failed to parse the Metric Name as a Query", fmt.Sprintf("Metric Name: %+v; qid=%v", metricName, qid), err)
+		return
+	}
+
+	if len(metricQueryRequest) == 0 {
+		utils.SendError(ctx, "Failed to parse the Metric Name as a Query", fmt.Sprintf("Metric Name: %+v; qid=%v", metricName, qid), errors.New("the metric name has no vector selector"))
 		return
 	}
 
@@ -1553,6 +1569,9 @@ func ConvertPqlToMetricsQuery(searchText string, startTime, endTime uint32, myid
 			if err != nil {
 				return []structs.MetricsQueryRequest{}, "", []structs.QueryArithmetic{}, err
 			}
+			if len(lhsRequest) == 0 {
+				return []structs.MetricsQueryRequest{}, "", []structs.QueryArithmetic{}, fmt.Errorf("ConvertPqlToMetricsQuery: operand without a vector selector: %v", expr.LHS.String())
+			}
 			arithmeticOperation.LHS = lhsRequest[0].MetricsQuery.HashedMName
 			lhsIsVector = true
 		}
@@ -1564,6 +1583,9 @@ func ConvertPqlToMetricsQuery(searchText string, startTime, endTime uint32, myid
 			rhsRequest, rhsValType, _, err = ConvertPqlToMetricsQuery(expr.RHS.String(), startTime, endTime, myid)
 			if err != nil {
 				return []structs.MetricsQueryRequest{}, "", []structs.QueryArithmetic{}, err
+			}
+			if len(rhsRequest) == 0 {
+				return []structs.MetricsQueryRequest{}, "", []structs.QueryArithmetic{}, fmt.Errorf("ConvertPqlToMetricsQuery: operand without a vector selector: %v", expr.RHS.String())
 			}
 			arithmeticOperation.RHS = rhsRequest[0].MetricsQuery.HashedMName
 			rhsIsVector = true
